@@ -60,6 +60,20 @@ func (c *StreamClient) Conn() (conn net.Conn) { return c.conn }
 // Close closes the connection.
 func (c *StreamClient) Close() (err error) { return c.conn.Close() }
 
+// CloseWrite half-closes the connection: TCP sends FIN, TLS sends
+// close_notify; the read side stays open so that outstanding responses can
+// still be received.
+func (c *StreamClient) CloseWrite() (err error) {
+	type closeWriter interface{ CloseWrite() error }
+
+	cw, ok := c.conn.(closeWriter)
+	if !ok {
+		return fmt.Errorf("tbench: %T cannot half-close", c.conn)
+	}
+
+	return cw.CloseWrite()
+}
+
 // WriteRaw writes exactly b, with no framing added.
 func (c *StreamClient) WriteRaw(b []byte) (err error) {
 	c.LastWriteStart = time.Now()
